@@ -7,6 +7,13 @@ NOTES = ("Model-based verification with explicit TLA+ specifications (spec/*.tla
 
 CHECKS = [
     {
+        "property_id": "C15",
+        "design_ref": "DESIGN.md §4 C15",
+        "technique": "TLA+ reference model StateVector.tla (value semantics of handles: copy / convert / assign / fail / metadata, maneuver and covariance mutations / pickle / as_orbit) explored by TLC exhaustively (short) and by simulation (long); every behaviour replayed on real objects with the projection of every live handle compared after every action",
+        "text": "The specification is the contract as a reference model: each handle owns form, frame, coordinate token, maneuver list, list-valued and scalar metadata and covariance; copies duplicate, actions touch one handle, failing form/frame changes (unknown form, unknown frame, Hill, unconnected frame, coordinate name of another form) change nothing. TLC enumerates all sequences of <=2 (thorough 3) of ~25 action kinds on up to 3 handles and simulates thousands of sequences of 6-7 actions; the replay performs them on real Orbit/StateVector objects (Kepler propagator, maneuvers, covariance, list and scalar metadata) and after every action compares every live handle with the model: kind, form, frame, cartesian EME2000 fingerprint (1e-9), maneuver count, metadata, covariance presence/frame/trace; assignment by index/name/alias must set exactly that element (names and aliases transcribed from the form doc-strings).",
+        "level_note": "Isolation between an object and its as_orbit/as_statevector derivative, of individual maneuver objects and of opaque user objects is not demanded (in-place mutations of shared objects in such alias groups are excluded from the explored behaviours). Trusted: TLC, the projection function.",
+    },
+    {
         "property_id": "C14",
         "design_ref": "DESIGN.md §4 C14",
         "technique": "TLA+ model CovFrames.tla on an exact integer lattice (octahedral frames, axis-aligned state, integer covariance): contract J C0 J^T vs implementation-shaped m1/m2 model, all assignment sequences enumerated by TLC and replayed on real Cov objects in synthetic exact frames and on the built-in frames",
@@ -59,5 +66,5 @@ CHECKS = [
 
 _PENDING = "check not built yet in this session (design in DESIGN.md §4); will be claimed once its TLA+ model and conformance harness exist"
 NOT_APPLICABLE = [
-    {"property_id": f"C{i:02d}", "reason": _PENDING} for i in range(1, 20) if i not in (3, 8, 9, 10, 12, 14)
+    {"property_id": f"C{i:02d}", "reason": _PENDING} for i in range(1, 20) if i not in (3, 8, 9, 10, 12, 14, 15)
 ]
